@@ -223,6 +223,32 @@ def construction(vc):
     vc.ensures("edges_are_equally_spaced_over_the_sample_range", S.cmp("==", edges.at(e), S.add(s0, S.mul(e, w))))
 
 
+@contract("C12", "default_bandwidth", native=False, replay_with="kde_native")
+def default_bandwidth(vc):
+    """GaussianKDE(sample) without a bandwidth: h is the normal-reference rule 1.06 * sd(sample) / N**(1/5) with the
+    population standard deviation of the (sorted) sample, and every constant of the estimator is derived from that h"""
+    from pyvc import npmodel as NPM
+    N = vc.int("N", lo=3)
+    raw = vc.vector("sample", N)
+    vc.modular("GaussianKDE.locate_mode", lambda I, func, args, kwargs: vc.fresh_real("mode"))
+    kde = vc.new(KDE, "GaussianKDE", raw)
+    s = vc.attr(kde, "sample")
+    h = vc.attr(kde, "h")
+    d = s - s.mean()
+    var = (d * d).mean()
+    sd = vc.sqrt(var)
+    vc.assume(S.cmp(">", S.sub(s.at(N - 1), s.at(0)), 0))      # at least two distinct values (quantifier of the property)
+    vc.assume_lemma("the variance of a sample that is not constant is positive", S.cmp(">", var, 0))
+    n5 = S.power(S.mul(N, 1.0), 0.2)
+    vc.assume_lemma("N**0.2 > 0 (exp is positive)", S.cmp(">", n5, 0))
+    vc.ensures("bandwidth_is_normal_reference_rule", S.cmp("==", S.mul(h, n5), S.mul(1.06, sd)))
+    vc.ensures("normalisation_uses_that_bandwidth", S.cmp("==", S.mul(vc.attr(kde, "norm"), S.mul(S.mul(N, vc.sqrt(S.mul(2, vc.pi))), h)), 1))
+    vc.ensures("cutoff_is_four_bandwidths", S.cmp("==", vc.attr(kde, "cutoff"), S.mul(4, h)))
+    vc.ensures("erf_scale", S.cmp("==", S.mul(vc.attr(kde, "q"), S.mul(vc.sqrt(2), h)), 1))
+    vc.ensures("integration_limits", S.And(S.cmp("==", vc.attr(kde, "lwr_limit"), S.sub(s.at(0), S.mul(2, h))),
+                                           S.cmp("==", vc.attr(kde, "upr_limit"), S.add(s.at(N - 1), S.mul(2, h)))))
+
+
 @contract("C12", "region_lookup", native=False, replay_with="kde_native")
 def region_lookup(vc):
     """BinaryTree.region_groups: every value is sent to the region that contains it (values outside the range to the
